@@ -83,6 +83,6 @@ example : (RB.rbf (.sporadic 9 13) (.scalar 2)).ArrWF ∧ (RB.rbf (.sporadic 9 1
   simp at ho
   subst ho
   refine ⟨by simp [RB.ArrWF, Arr.WF]; decide, ⟨?_, Cost.scalar_strictPos 1 (by omega)⟩⟩
-  simp [Arr.Exact]; decide
+  simp [Arr.Exact]
 
 end RTA.C06
